@@ -40,6 +40,9 @@ QUANT_IDLEN = [0, 30, 31, 40, 64]
 # the translator runs before the Lean build: run_parts proves first and only then calls
 # run_part, so the table is regenerated from /repo's current tree when the part is loaded
 # (the scratch tree is a copy of the same files); run_part re-checks against the scratch tree.
+def prepare_src(src_dir=None):
+    return prepare(src_dir)
+
 def prepare(src_dir=None):
     return specchar.regenerate(src_dir or common.SRC)
 
